@@ -3,6 +3,9 @@ import Model.Pass.Synth
 import Model.Lib.Ops
 import Model.Lib.Barrel
 import Model.Lib.Adders
+import Model.Lib.SeqMult
+import Model.Lib.Wallace
+import Model.Lib.Prng
 import Model.Gen.Conv
 import Model.Lib.Muxes
 import Model.Pass.Cond
@@ -82,13 +85,41 @@ def cmdAdder (j : Lean.Json) : Except String Lean.Json := do
     let a := bitsOf (widths.getD 0 0) (c.getD 0 0)
     let b := bitsOf (widths.getD 1 0) (c.getD 1 0)
     let cin := (c.getD 2 0) % 2 == 1
+    let fa : List Bool → List Bool → List Bool :=
+      match (jStr (fieldD params "final_adder" (Lean.Json.str "kogge_stone"))).toOption.getD "kogge_stone" with
+      | "ripple_add" => fun x y => rippleAdd x y false
+      | _ => fun x y => koggeStone x y false
     match fn with
+    | "tree_multiplier" => pure (treeMultiplier fa a b)
+    | "fast_group_adder" =>
+      pure (fastGroupAdder fa ((widths.zip c).map fun (w, v) => bitsOf w v))
     | "kogge_stone" => pure (koggeStone a b cin)
     | "ripple_add" => pure (rippleAdd a b cin)
     | "cla_adder" => pure (claAdder a b cin ul)
     | _ => throw s!"unknown adder {fn}"
   return Lean.Json.mkObj [("ok", .bool true), ("width", natJson ((outs.headD []).length)),
                           ("vals", .arr (outs.map fun o => natJson (Pyrtl.Synth.toNat o)).toArray)]
+
+/-- `seqmult` command: the register-level model of simple_mult / complex_mult on a history of
+    `[start, A, B]` per cycle from reset; reply: `[accum, done]` as visible during each cycle. -/
+def cmdSeqMult (j : Lean.Json) : Except String Lean.Json := do
+  let alen ← jNat (← field j "alen")
+  let blen ← jNat (← field j "blen")
+  let s ← jNat (← field j "shifts")
+  let steps ← (← jArr (← field j "steps")).toList.mapM jNatList
+  let ins : List (Bool × Nat × Nat) := steps.map fun c => (c.getD 0 0 != 0, c.getD 1 0, c.getD 2 0)
+  let tr := Pyrtl.SeqMult.trace alen blen s Pyrtl.SeqMult.init ins
+  return Lean.Json.mkObj [("ok", .bool true),
+    ("trace", .arr (tr.map fun (acc, d) => Lean.Json.arr #[natJson acc, natJson (if d then 1 else 0)]).toArray)]
+
+/-- `lfsr` command: the register-level model of prng_lfsr on a history of `[load, req, seed]` per cycle
+    from reset; reply: the `rand` output as visible during each cycle. -/
+def cmdLfsr (j : Lean.Json) : Except String Lean.Json := do
+  let bw ← jNat (← field j "bitwidth")
+  let steps ← (← jArr (← field j "steps")).toList.mapM jNatList
+  let ins : List (Bool × Bool × Nat) := steps.map fun c => (c.getD 0 0 != 0, c.getD 1 0 != 0, c.getD 2 0)
+  let tr := Pyrtl.Prng.lfsrTrace bw 0 ins
+  return Lean.Json.mkObj [("ok", .bool true), ("trace", .arr (tr.map natJson).toArray)]
 
 end Pyrtl.Drv
 
